@@ -308,7 +308,7 @@ def drive(h, prog, replies, flags=(False, False), breaks=None, inspect=None, rng
     return s, start, nbreaks
 
 
-INSPECT = ["PRINT A;B;X", "PRINT 1/0", "? A$", "PRINT FNA(3)", "PRINT FNA(1/0)", "PRINT N(1)", "REM look", "PRINT (", "PRINT Z9 +",
+INSPECT = ["PRINT FNO(0)", "PRINT FNT(2)", "PRINT FNO(1) + FNO(0)", "PRINT FNA(FNO(0))", "PRINT FNS$(1)", "PRINT A;B;X", "PRINT 1/0", "? A$", "PRINT FNA(3)", "PRINT FNA(1/0)", "PRINT N(1)", "REM look", "PRINT (", "PRINT Z9 +",
            "IF 1 THEN PRINT I", "PRINT F(3)", "PRINT SQ(2)", "PRINT \"x\" + 1", "IF 0 THEN PRINT 1 ELSE PRINT J", "PRINT ABS(-K)"]
 
 
@@ -321,7 +321,9 @@ def run_c07(chk):
         pg = gen.ProgGen(r, fault=0.03, use_stop=False, use_rnd=True)
         prog = pg.generate(size=5 + r.below(6))
         # make inspection of N() harmless: the program owns the array from the start
-        prog = ["1 DIM N(12)", "2 DEF FNA(X) = X/X + X"] + prog
+        # FNO fails inside a function it calls (FNI), FNT's body ends prematurely, FNS$'s body has the wrong kind
+        prog = ["1 DIM N(12)", "2 DEF FNA(X) = X/X + X", "3 DEF FNI(Y) = 10/Y", "4 DEF FNO(X) = FNI(X) + 1", "5 DEF FNT(X) = X +",
+                "6 DEF FNS$(X) = X"] + prog
         replies = [gen.gen_reply(r) for _ in range(12)]
         seed = r.below(2 ** 33)
         base, st0, _ = drive(h, prog, replies, seed=seed)
@@ -400,10 +402,12 @@ def run_c07(chk):
 INPUT_FORMS = ["{n} INPUT {v}", "{n} PRINT \"Q\"; : INPUT {v}", "{n} X = 1 : INPUT {v} : PRINT \"after\"", "{n} IF 1 THEN INPUT {v}",
                "{n} IF 1 THEN INPUT {v} ELSE PRINT \"no\"", "{n} IF 0 THEN PRINT \"no\" ELSE INPUT {v}",
                "{n} IF 0 THEN PRINT \"no\" ELSE INPUT {v} : PRINT \"tail\"", "{n} IF 1 THEN INPUT {v} : PRINT \"t2\"",
-               "{n} FOR I = 1 TO 2 : INPUT {v} : NEXT I"]
+               "{n} FOR I = 1 TO 2 : INPUT {v} : NEXT I",
+               "{n} INPUT Q9 : PRINT \"GOT\" : INPUT {v}", "{n} IF 0 THEN INPUT Q9 ELSE INPUT {v}",
+               "{n} INPUT Q9$ : INPUT {v} : PRINT \"t3\""]
 TARGETS = [("A", "num"), ("X", "num"), ("A$", "str"), ("N(2)", "num"), ("N(I)", "num"), ("T$(1)", "str"), ("M(1,2)", "num")]
 NUM_REPLIES = [("5", "5"), (" 7 ", "7"), ("3.5", "3.5"), ("-2", "-2"), ("1e2", "100"), ("+4", "4"), (".5", ".5"), ("007", "7")]
-STR_REPLIES = [("hello", '"hello"'), ("", '""'), ("a b", '"a b"'), ('"q,r"', '"q,r"'), ("  pad  ", '"pad"'), ("12", '"12"'),
+STR_REPLIES = [("日本", '"日本"'), ("éé", '"éé"'), ("héllo wörld", '"héllo wörld"'), ("😊", '"😊"'), ("hello", '"hello"'), ("", '""'), ("a b", '"a b"'), ('"q,r"', '"q,r"'), ("  pad  ", '"pad"'), ("12", '"12"'),
                ("1.50", '"1.5"')]
 EXTRA = [",9", " , x", ":tail", ", 1, 2"]
 
@@ -438,6 +442,7 @@ def run_c08(chk):
         guard = 0
         pending_re = reenters
         asked = 0
+        pre_requests = 1 if form.startswith("{n} INPUT Q9") else 0
         while not a.dead and guard < 200 and a.state != "Idle":
             guard += 1
             if a.state == "Running":
@@ -451,7 +456,9 @@ def run_c08(chk):
                             chk.fail("input-suspend-disturbs", f"reaching INPUT changed {k}", session_replay(a))
             elif a.state == "AwaitingInput":
                 asked += 1
-                if pending_re > 0:
+                if asked <= pre_requests:
+                    a.reply("1")            # the other INPUT on the line (the assignment program answers it with "1" too)
+                elif pending_re > 0:
                     pending_re -= 1
                     row = a.reply(r.choice(["abc", "x1", '"5"', "--"]))
                     nxt = a.cont() if a.state == "Running" else None
@@ -462,7 +469,7 @@ def run_c08(chk):
                     a.reply(reply + extra)
         b, sb, _ = drive(h, prog_as, [])
         eva = [e for e in events([row for _, row in a.ops[sa:]]) if e not in (("?",), ("R",))]
-        evb = events([row for _, row in b.ops[sb:]])
+        evb = [e for e in events([row for _, row in b.ops[sb:]]) if e != ("?",)]
         if extra:
             want_x = 2 if loop else 1
             if eva.count(("X",)) != want_x:
@@ -553,6 +560,33 @@ def run_c09(chk):
             prev_loc = row.snap().get("loc")
         sessions.append(s.ops)
         chk.case(tuple(prog), sample={"program": prog[:5], "turns": len(s.ops)})
+    # immediate (direct-mode) lines with several statements: the call that STARTS evaluation executes one statement too
+    IMM = ["PRINT 1: PRINT 2: PRINT 3", "FOR I = 1 TO 3: PRINT I: NEXT I", "X=1: Y=2: PRINT X+Y: PRINT X", "IF 1 THEN PRINT 1: PRINT 2",
+           "IF 0 THEN PRINT 1 ELSE PRINT 2: PRINT 3: PRINT 4", "A$=\"x\": PRINT A$: PRINT A$;A$", "?1:?2", "GOSUB 500: PRINT 9",
+           "FOR J = 1 TO 2: FOR K = 1 TO 2: PRINT J*K: NEXT K: NEXT J", "INPUT Z: PRINT Z: PRINT Z+1"]
+    for i in range(30 if chk.tier == "quick" else 600):
+        r = chk.rng.fork(("c09i", i))
+        s = sess.Session(h)
+        s.flags(False, r.chance(0.5))
+        enter_program(s, ["500 PRINT \"SUB\"", "510 RETURN", "600 STOP", "610 PRINT \"AFTER\""])
+        if r.chance(0.3):
+            s.line("GOTO 600")          # type the line at a breakpoint
+            s.run_until_idle(replies=[], max_turns=10)
+        first = len(s.ops)
+        for _ in range(1 + r.below(3)):
+            s.line(r.choice(IMM))
+            s.run_until_idle(replies=["5", "6"], max_turns=60)
+        for op, row in s.ops[first:]:
+            if row.kind in ("panic", "abort"):
+                chk.fail("crash:" + row.f.get("msg", "")[:50], row.raw[:160], session_replay(s))
+            if row.kind != "row" or op[0] not in ("cont", "line"):
+                continue
+            prints = [o for o in row.outputs() if o.startswith("P")]
+            if len(prints) > 1:
+                chk.fail("turn-many-statements", f"one call ({op[0]} {op[1] if len(op) > 1 else ''!r}) produced {len(prints)} Print records", session_replay(s))
+            chk.count("immediate-calls")
+        sessions.append(s.ops)
+        chk.case(("imm", i, tuple(o[1] for o, _ in s.ops[first:] if o[0] == "line")), sample={"immediate": [o[1].decode() for o, _ in s.ops[first:] if o[0] == "line"][:3]})
     h.close()
     session_correspondence(chk, "C09-turns", sessions, ["outcome", "state", "outputs", "reads", "snap"])
 
